@@ -226,6 +226,10 @@ func (a *wAuth) Authenticate(addr net.Addr, auth string, tx uint64) (bool, strin
 	c.ok = strings.HasPrefix(auth, "good-")
 	if c.ok {
 		c.id = strings.TrimPrefix(auth, "good-")
+	} else if strings.HasPrefix(auth, "bad-") {
+		// a rejecting authenticator may still name the user it rejected (the HTTP authenticator
+		// passes the backend's id through verbatim): the verdict, not the id, decides
+		c.id = strings.TrimPrefix(auth, "bad-")
 	}
 	c.retSeq = w.x.Seq()
 	if c.ok {
